@@ -22,11 +22,12 @@ reg(Prop("C07",
                   "errors of Move classified from the message texts of package deps"]))
 
 reg(Prop("C06",
-         [("depsadj", gd.g_depsadj, 8), ("depsadjwitness", gd.g_witness_adj, 0)],
+         [("depsadj", gd.g_depsadj, 8), ("depsadjh", gd.g_depsadjh, 4), ("depsadjwitness", gd.g_witness_adj, 0)],
          lambda c: "independent" in c.tags and "conflict" in c.tags,
          _GEN + "for every adjacent pair of every block a fresh code is built and Move(i, i+1) is tried; the oracle evaluates the "
-         "clause list of the property on the instructions' effects; non-trivial = the code has both an independent and a "
-         "conflicting adjacent pair",
+         "clause list of the property on the instructions' effects; stream depsadjh does the same after a history of moves, "
+         "bound queries and lookups on ONE code object (every adjacent pair of the current order is swapped and swapped back); "
+         "non-trivial = the code has both an independent and a conflicting adjacent pair",
          3000, 150000,
          trusted=["Independent = the clause list of C06 plus: neither instruction writes the instruction pointer (F08 repair)"]))
 
